@@ -235,7 +235,7 @@ def shard_a(args):
                             check_query(acc, pre, report, row, col, trailing, with_cb, (), case)
                     # long failure patterns ("any number of times")
                     if (row, col) == (2, 10) or (thorough and row == col):
-                        for pat in (("before_each", 1), ("before_each", 5), ("first", 150), ("middle", 150), ("before_each", 40), ("first", 1500), ("middle", 1200)):
+                        for pat in (("before_each", 1), ("before_each", 5), ("first", 150), ("middle", 150), ("before_each", 40), ("first", 1500), ("middle", 1200), ("first", 12000), ("middle", 9000)):
                             case = {"preceding": pre, "report": report, "trailing": "x", "callback": True, "failing_reads": list(pat)}
                             acc.case(True, key=(pre, report, pat), sample=case)
                             acc.transitions += 1
@@ -282,6 +282,9 @@ def shard_b(args):
             for r2 in range(h):
                 for k in ks:
                     out.append(("nested", r1, k, r2))
+                if step <= 1 and r1 != r2:
+                    for m_ in (2, 7, 8, 9, 12, 40):
+                        out.append(("nested", r1, ("every", m_), r2))
         # a nested call (signal handler) arriving at the k-th asynchronous point of the outer call - not only inside a read
         if step <= 1 or thorough:
             for r1 in range(h):
@@ -329,7 +332,22 @@ def shard_b(args):
             final = r2
             state = {"fired": False}
 
+            if isinstance(k, tuple):
+                # ("every", m): the first m queries of this call are EACH interrupted by a nested call, the content moving every time
+                m_ = k[1]
+                final = r2 if m_ % 2 else r1
+                state.update(rounds=0, prev=0)
+
             def hook(attempt):
+                if isinstance(k, tuple):
+                    qlen = len(world.inp.q)
+                    if qlen > state["prev"]:  # a new report has arrived: a new query of the outer call
+                        state["rounds"] += 1
+                        if state["rounds"] <= k[1]:
+                            nested_results.append(win.get_cursor_vertical_diff())
+                            term.r = r2 if state["rounds"] % 2 else r1
+                    state["prev"] = qlen - 1
+                    return
                 if attempt == k and not state["fired"]:
                     state["fired"] = True
                     nested_results.append(win.get_cursor_vertical_diff())
@@ -416,8 +434,8 @@ def shard_b(args):
                     continue
             new = world.save()
             acc.state(hash((h, w, k0, WH.canon_window(new[0]), new[1].r)))
-            if act[0] == "nested_at_point":
-                continue  # explored as a last step only (its point index k already multiplies the menu)
+            if act[0] == "nested_at_point" or (act[0] == "nested" and isinstance(act[2], tuple)):
+                continue  # explored as a last step only (their parameters already multiply the menu)
             rec(new, hist + [list(act)], step + 1)
 
     rec(st0, [], 0)
